@@ -311,9 +311,13 @@ pub fn run(rep: &mut Report) {
         let stats = sweep(&fam, |st, i, spec| {
             watch_begin(i as u64, 1);
             on_spec(st, spec, 1);
+            // and with all edges inserted in the opposite order (reversed adjacency lists: a different match order)
+            let mut rev = spec.clone();
+            rev.edges.reverse();
+            on_spec(st, &rev, 1);
             watch_end();
         });
-        rep.absorb("targeted", "local-complementation stars, pivot double stars, gadget pairs", true, None, t0, stats);
+        rep.absorb("targeted", "local-complementation stars, pivot double stars, gadget pairs (supports with and without outputs, leaf wired first or last), gadget groups, interacting gadget groups; each also with its edges inserted in the opposite order", true, None, t0, stats);
     }
     // gadget webs
     for (gn, sn) in if quick { vec![(3usize, 2usize), (4, 2)] } else { vec![(3, 3), (4, 3), (5, 1), (5, 2)] } {
